@@ -212,6 +212,21 @@ func New(uni []Node, tag string) bfs.System {
 	if err := k.CreateClient(s.ctx, Client, cs, cons); err != nil {
 		panic(err)
 	}
+	if strings.Contains(tag, "upgrade-to-child") {
+		// governance then upgrades the client to a header it never synced: the first child of G in the universe
+		for _, n := range uni {
+			if n.Parent == "G" {
+				u := toProto(s.hdr[n.Name])
+				ucs := &ethclient.ClientState{Header: *u, ChainId: 4, ContractAddress: common.HexToAddress("0x20000001").Bytes(), TrustingPeriod: 10_000_000, TimeDelay: 0, BlockDelay: 1}
+				if err := k.UpgradeClient(s.ctx, Client, ucs, &ethclient.ConsensusState{Timestamp: u.Time, Height: u.Height, Root: u.Root}); err != nil {
+					panic(err)
+				}
+				s.accepted[n.Name] = true
+				s.head = n.Name
+				break
+			}
+		}
+	}
 	return s
 }
 
